@@ -896,6 +896,10 @@ class C18(RefProp):
         out.append(F({("m.txt",): "START a\nSTARTCODE b\nPRINT end\nDELAY -1", ("a.txt",): "PRINT\n    a1\n    a2", ("b.txt",): "REPEAT 2\n    PRINT b"}, ("m.txt",),
                      expect_print_files=[("a.txt", 2), ("a.txt", 3), ("b.txt", 2), ("b.txt", 2), ("m.txt", 3)]))
         out.append(comp("PRINT\n    one\n    two\n    three\nPRINT four\n    five", {}, expect_prints=["one", "two", "three", "four", "five"]))
+        for kind in ("START", "STARTENV", "STARTCODE"):
+            out.append(F({("m.txt",): "PRINT m1\nIF TRUE\n    PRINT m2\n    %s a\nPRINT never" % kind, ("a.txt",): "PRINT a1\nSTART b", ("b.txt",): "PRINT b1\nDELAY -1"}, ("m.txt",),
+                         expect_prints=["m1", "m2", "a1", "b1"]))
+            out.append(F({("m.txt",): "PRINT m1\n%s a\n$PRINT \"\"\nPRINT m3\nDELAY -1" % kind, ("a.txt",): "PRINT a1"}, ("m.txt",), expect_prints=["m1", "a1", "", "m3"]))
         return out
 
     def oracle(self, c, i):
